@@ -43,6 +43,9 @@ type Spec struct {
 	// ViaContainer: the zip is written by containerarchiver.CompressZip from the walked container and
 	// a file-system pool (deflate-compressed entries) instead of archiver.CompressZip (stored entries)
 	ViaContainer bool `json:"via_container,omitempty"`
+	// Spell > 0: the source directory is passed to the archiver under another spelling of the same path
+	// (trailing slash, doubled slash, "/./", "/x/../")
+	Spell int `json:"spell,omitempty"`
 }
 
 func specTree(s Spec) h.Tree {
@@ -201,8 +204,25 @@ func check(s Spec) h.Result {
 		return h.Result{Skip: "cannot write tree"}
 	}
 	os.MkdirAll(out, 0o755) // "extracting into an empty directory"
+	if s.Spell > 0 {
+		base, name := filepath.Dir(src), filepath.Base(src)
+		switch s.Spell % 4 {
+		case 0:
+			src = src + "/"
+		case 1:
+			src = base + "//" + name
+		case 2:
+			src = base + "/./" + name
+		case 3:
+			os.MkdirAll(filepath.Join(base, "x"), 0o755)
+			src = base + "/x/../" + name
+		}
+	}
 	nd, nf, nl := counts(tree)
 	cl := []string{"format:" + s.Format, fmt.Sprintf("workers:%d", s.Workers)}
+	if s.Spell > 0 {
+		cl = append(cl, "source-dir:not-in-clean-form")
+	}
 	if s.Procs > 0 {
 		defer runtime.GOMAXPROCS(runtime.GOMAXPROCS(s.Procs))
 		cl = append(cl, fmt.Sprintf("gomaxprocs:%d", s.Procs))
@@ -375,6 +395,9 @@ var prop = h.Prop[Spec]{
 		s.Workers = genWorkers(t)
 		if s.Format == "zip" {
 			s.ViaContainer = rapid.IntRange(0, 2).Draw(t, "via-container") == 0
+		}
+		if rapid.IntRange(0, 3).Draw(t, "respelled-source-dir") == 0 {
+			s.Spell = rapid.IntRange(1, 4).Draw(t, "spell")
 		}
 		if s.Format == "zip" && s.Workers >= 2 && rapid.Bool().Draw(t, "gate") {
 			s.Gate = &Gate{Entry: rapid.IntRange(0, 50).Draw(t, "gate-entry"), Need: rapid.IntRange(1, 8).Draw(t, "gate-need")}
